@@ -1,4 +1,5 @@
 import WowVerif.Model.C03Codec
+import WowVerif.Model.C03Adpcm
 namespace Wv.Drv
 open Wv Wv.Codec
 
@@ -28,6 +29,17 @@ def c03 (toks : List String) : Option String :=
       let d ← bytesOfHex h
       let enc := sparseCompress d
       pure (if 1 + enc.length ≥ d.length then "raw" else hexOfBytes enc)
+  | ["c03adpcmenc", n, h] => do
+      -- compress(data, ADPCM mono / stereo): level 5, stored raw when not shorter
+      let d ← (if h == "-" then some [] else bytesOfHex h)
+      match Adpcm.encode (← n.toNat?) 5 d with
+      | none => pure "err"
+      | some enc => pure (if 1 + enc.length ≥ d.length then "raw" else hexOfBytes enc)
+  | ["c03adpcmdec", n, h, size] => do
+      let b ← (if h == "-" then some [] else bytesOfHex h)
+      match Adpcm.decode (← n.toNat?) b (← size.toNat?) with
+      | none => pure "err"
+      | some out => pure (hexOrDash out)
   | ["c03sel", f] => do pure (if selectorSupported (← f.toNat?) then "ok" else "unsupported")
   | _ => none
 
